@@ -170,6 +170,8 @@ pub fn migrate(options: MigrationOptions) -> MigrationResult<MigrationReport> {
     {
         return Err(MigrationError::SourceChanged);
     }
+    #[cfg(feature = "verif")]
+    crate::verif::point("mig_source_open", 0, 0);
     let source_version = source.format_version;
     if source_version >= 3 {
         return Err(MigrationError::CurrentFormat(source_version));
@@ -187,8 +189,12 @@ pub fn migrate(options: MigrationOptions) -> MigrationResult<MigrationReport> {
         destination_guard.take_file(),
     )?;
 
+    #[cfg(feature = "verif")]
+    crate::verif::point("mig_destination_open", 0, 0);
     copy_records(&source, &destination)?;
     destination.flush()?;
+    #[cfg(feature = "verif")]
+    crate::verif::point("mig_copied", 0, 0);
     let verification_file = destination
         .device_file
         .as_ref()
@@ -206,6 +212,8 @@ pub fn migrate(options: MigrationOptions) -> MigrationResult<MigrationReport> {
         return Err(MigrationError::VerificationFailed(0));
     }
     let records = verify_records(&source, &verified)?;
+    #[cfg(feature = "verif")]
+    crate::verif::point("mig_verified", 0, 0);
     let destination_stamp =
         FileStamp::read_store_file(&verified, destination_guard.temporary_path())?;
     drop(verified);
@@ -216,7 +224,11 @@ pub fn migrate(options: MigrationOptions) -> MigrationResult<MigrationReport> {
         return Err(MigrationError::SourceChanged);
     }
 
+    #[cfg(feature = "verif")]
+    crate::verif::point("mig_before_publish", 0, 0);
     destination_guard.publish(&destination_stamp)?;
+    #[cfg(feature = "verif")]
+    crate::verif::point("mig_published", 0, 0);
     Ok(MigrationReport {
         source_version,
         destination_version: 3,
